@@ -43,4 +43,7 @@ def check(model, tier):
     from ..rules import purity as _purity
 
     _purity.r_no_value_keyed_cache(ctx, "R09.7")
+    from ..rules.foundation import run_foundation
+
+    run_foundation(ctx, "09")
     return run
